@@ -10,9 +10,9 @@ CONSTANTS
   MaxInFlight = 0
   AuctionImpl = "intended"
   MaxRounds = 0
-  ScenLen = 2
-  MaxSignFail = 4
-  History = FALSE
-  Matrix = TRUE
+  ScenLen = 6
+  MaxSignFail = 1
+  History = TRUE
+  Matrix = FALSE
 INVARIANTS Emit
 CHECK_DEADLOCK FALSE
